@@ -23,6 +23,7 @@ type FuncResult struct {
 	Abstracted   []string
 	Externs      []string
 	Lemmas       []string
+	Variant      string
 	Returns      int
 	LoopsTotal   int
 	LoopsWithInv int
@@ -386,4 +387,23 @@ func (e *Engine) verifyArith(name string) (res *FuncResult) {
 		fr.proveSpecEnv("lemma", "arithmetic lemma "+name+": "+cj.String(), &Clause{Line: pd.Line}, cj, se)
 	}
 	return
+}
+
+// filterVariant: in a variant run (function@variant) only the obligations of clauses tagged with the
+// variant are kept (plus the vacuity guards); the untagged safety obligations belong to the main run.
+func filterVariant(obls []*Obligation, variant string) []*Obligation {
+	var out []*Obligation
+	for _, o := range obls {
+		if o.MustFail {
+			out = append(out, o)
+			continue
+		}
+		for _, p := range o.Props {
+			if p == variant {
+				out = append(out, o)
+				break
+			}
+		}
+	}
+	return out
 }
